@@ -121,18 +121,31 @@ class Top(Sh):
         return f"Top({self.reason})"
 
 
+def _join_label(a, b):
+    if a and b:
+        return f"{a} & {b}"
+    return a or b
+
+
 class Choice(Sh):
-    def __init__(self, alts):
-        flat = []
-        for a in alts:
+    """join of alternatives; ``labels[i]`` says (when known) which input condition selects alts[i]"""
+
+    def __init__(self, alts, labels=None):
+        flat, labs = [], []
+        for i, a in enumerate(alts):
+            lab = labels[i] if labels else None
             if isinstance(a, Choice):
-                flat.extend(a.alts)
+                for j, b in enumerate(a.alts):
+                    flat.append(b)
+                    labs.append(_join_label(lab, a.labels[j]))
             else:
                 flat.append(a)
+                labs.append(lab)
         self.alts = flat
+        self.labels = labs
 
     def __repr__(self):
-        return "Choice(" + " | ".join(map(repr, self.alts)) + ")"
+        return "Choice(" + " | ".join((f"{l}: " if l else "") + repr(a) for a, l in zip(self.alts, self.labels)) + ")"
 
 
 class Obj(Sh):
@@ -903,24 +916,29 @@ class Interp:
             if isinstance(st, ast.Assign) and len(st.targets) == 1 and isinstance(st.targets[0], ast.Name):
                 v = sc.vars.get(st.targets[0].id)
                 if isinstance(v, Choice) and 1 < len(v.alts) <= 8 and all(isinstance(a, Const) for a in v.alts) and stmts[i + 1:]:
-                    seen = []
-                    results = []
-                    for alt in v.alts:
-                        if any(alt.v == x for x in seen):
-                            continue
-                        seen.append(alt.v)
+                    cases = []  # (value, merged label)
+                    for alt, lab in zip(v.alts, v.labels):
+                        for c in cases:
+                            if c[0].v == alt.v and type(c[0].v) is type(alt.v):
+                                c[1].append(lab)
+                                break
+                        else:
+                            cases.append((alt, [lab]))
+                    results, labels = [], []
+                    for alt, labs in cases:
                         s2 = sc.child()
                         s2.vars[st.targets[0].id] = alt
                         try:
                             self.exec_block(stmts[i + 1:], s2, yields)
                             raise ShapeError(f"case split on {st.targets[0].id}: a branch falls through without returning")
                         except _Return as r:
-                            results.append(TupS([Const(("case", st.targets[0].id, alt.v)), r.v]))
+                            results.append(r.v)
+                            labels.append("|".join(sorted(x for x in labs if x)) or None)
                         except _Raise:
                             continue
                     if not results:
                         raise _Raise("all cases raise")
-                    raise _Return(Choice([r.elts[1] for r in results]) if len(results) > 1 else results[0].elts[1])
+                    raise _Return(Choice(results, labels) if len(results) > 1 else results[0])
 
     def exec_stmt(self, st, sc, yields):
         if isinstance(st, ast.Expr):
@@ -1047,15 +1065,16 @@ class Interp:
         if k in ("lambda", "repo", "lib", "method") and not (k == "lib" and f.name in ("curry", "pipe", "compose_left", "compose", "identity", "builtins.isinstance", "builtins.len", "builtins.bool")):
             for i, a in enumerate(args):
                 if isinstance(a, Choice) and not all(isinstance(x, Const) for x in a.alts):
-                    outs = []
-                    for alt in a.alts:
+                    outs, labs = [], []
+                    for alt, lab in zip(a.alts, a.labels):
                         try:
                             outs.append(self.call(f, list(args[:i]) + [alt] + list(args[i + 1:]), kwargs, node))
+                            labs.append(lab)
                         except _Raise:
                             continue
                     if not outs:
                         raise _Raise("every alternative raises")
-                    return outs[0] if len(outs) == 1 else Choice(outs)
+                    return outs[0] if len(outs) == 1 else Choice(outs, labs)
         if k == "lambda":
             sc = f.scope.child(owner=f.func if f.func is not None else f.scope.owner)
             self.bind_params(f.node.args, args, kwargs, sc, "<lambda>")
